@@ -6,7 +6,7 @@ from collections import Counter
 import framework as F
 
 ID = "C17"
-GEN = ["NeuronDynamics", "NeuronAdaptation"]
+GEN = ["NeuronDynamics", "NeuronAdaptation", "Infra", "Interpolation"]   # the last two through C01.Ring / C04.Synapse
 LEVEL = "proof"
 TECHNIQUE = ("Coq proof over a layer model that is generic in the component step functions (section variables): "
              "forward equalities for Serial / Biclique / RecurrentSerial by computation through the dict plumbing, "
@@ -23,21 +23,28 @@ LEVEL_TEXT = ("Machine-checked proof (Coq; the generic layer theorems and all cl
               "component behaviour, keyword arguments, input sequence, operation order and run length; that every output "
               "has its neuron group's batched shape; that clear() cannot fail and at any position of any run returns every "
               "connection, synapse history and pointer, neuron state and the feedback buffer to the state of a freshly "
-              "constructed layer carrying the same weights/biases/delays/adaptations, hence replay determinism.")
-LEVEL_NOTE = ("Trusted: Coq kernel; translator for the neuron kernels (voltage_thresholding_constant, "
-              "voltage_integration_linear, adaptive_thresholds_linear_spike); hand-written models C17/Layers.v and "
-              "C17/Components.v validated by correspondence only (generator coverage); torch/einops/nn.ModuleDict modelled "
-              "by their meaning. NOT modelled: wiring kwargs, Updater accumulators cleared by Connection.clear, broadcasting "
-              "between different shapes (treated as an error), non-integer delays (C06), Cell objects beyond the constructor's "
-              "shape check. Other neuron classes (GLIF1 GLIF2 QIF Izhikevich EIF AdEx) have no Coq model in C17: the layer theorems "
-              "are generic in them, but their 'clear() with default arguments = freshly constructed component carrying the "
-              "adaptations' hypothesis is proved only for LinearDense/DeltaCurrent/LIF/ALIF and is otherwise CHECKED ON THE "
-              "IMPLEMENTATION ONLY (oracle-only case stream over all eight classes: adaptations before/after clear, state vs a "
-              "freshly built component, replay; with a coverage guard that every adaptive class is cleared with non-zero "
-              "adaptations). The documented recurrence "
-              "is proved under refrac_t > 0; for refrac_t = 0 it is REFUTED (recurrent_spike_attr_refuted: RecurrentSerial "
-              "reads Neuron.spike = (refrac == refrac_t), all-True then - consequence of the C03 spike-attribute finding), "
-              "reported by the check as FINDING-CANDIDATE until known_findings.json lists it.")
+              "constructed layer carrying the same weights/biases/delays/adaptations, hence replay determinism. The component "
+              "hypotheses (default clear() = freshly constructed component with the adaptations kept, keep_adaptations=False "
+              "zeroes them, clear idempotent, forward keeps the invariants) are proved for ALL EIGHT neuron classes on the C03 "
+              "model (LIF GLIF1 ALIF GLIF2 QIF Izhikevich EIF AdEx) and ALL FOUR synapse classes on the C04 model (under an "
+              "undelayed LinearDense map), and the layer theorems are instantiated with them (c03_* / c04_c03_* obligations); "
+              "the documented recurrence holds for every class with refrac_t > 0 (C03's spike-attribute theorem).")
+LEVEL_NOTE = ("Trusted: Coq kernel; translator for the neuron kernels, _unwind_ptr / recordsz and the interpolation kernels; "
+              "hand-written models C17/Layers.v, C17/Components.v (LinearDense+DeltaCurrent with integer-step delays, LIF, "
+              "ALIF; validated by the C17 correspondence) and the models of C03 (eight neuron classes), C04 (four synapse "
+              "classes) and C01 (RecordTensor), which are tied to the code by THEIR OWN correspondence checks - the C17 "
+              "correspondence does not re-run them; the adapters C17/NeuronsC03.v / SynapsesC04.v (batch-major <-> "
+              "neuron-major transposition, like_synaptic, F.linear, and the fact that Layer.clear() calls Neuron.clear() "
+              "without keep_adaptations, whose default is True in every adaptive class) are validated on the implementation by "
+              "the oracle-only case stream over all eight classes (adaptations before/after clear, state vs a freshly built "
+              "component, replay; coverage guard that every adaptive class is cleared with non-zero adaptations). NOT modelled: "
+              "wiring kwargs, Updater accumulators cleared by Connection.clear, broadcasting between different shapes (treated "
+              "as an error), non-integer delays (C06), delayed connections over the C04 synapses, Cell objects beyond the "
+              "constructor's shape check, the other connection classes. clear_replay (same outputs as the fresh layer, no "
+              "learned state involved) is stated for the classes whose forward never learns (LIF GLIF1 QIF EIF); for the "
+              "adaptive classes the statement is clear_then_run (fresh layer carrying the adaptations). The documented "
+              "recurrence is proved under refrac_t > 0; for refrac_t = 0 it is REFUTED (recurrent_spike_attr_refuted; known "
+              "finding C17-recurrent-spike-attr-refrac0).")
 HEADER = ("From Coq Require Import List ZArith Bool PrimFloat.\n"
           "From Inferno Require Import Base.Num Base.NumF C17.Layers C17.Components C17.LayersExec.\n"
           "Import ListNotations.\n")
